@@ -98,6 +98,18 @@ def real_assign(u, t, T, path, value):
         obj, typ, cls = getattr(obj, rf._name), f["type"], rf.type
 
 
+def held_parent(u, t, T, path):
+    """The object holding the leaf of `path` (reached once and then kept by the caller), its abstract type and class; None when
+    the path crosses an anonymous member (there is no object to hold: the names are folded into the parent)."""
+    obj, typ, cls = u, t, T
+    for idx in path[:-1]:
+        f, rf = typ["fields"][idx - 1], cls.__fields__[idx - 1]
+        if f.get("anon"):
+            return None
+        obj, typ, cls = getattr(obj, rf._name), f["type"], rf.type
+    return obj, typ, cls
+
+
 def union_history(rnd, first_id, t, mode, defs, assigns=None, nsteps=4, compiled=False):
     cs = codec.load(defs, mode, compiled)
     T = getattr(cs, t["name"])
@@ -147,6 +159,27 @@ def union_history(rnd, first_id, t, mode, defs, assigns=None, nsteps=4, compiled
         rid += 1
         if status["status"] != "ok":
             break
+        if len(path) >= 2 and rnd.random() < 0.3:
+            # a user keeps the nested structure (s = u.m.s) and assigns through it TWICE: both assignments are assignments to the union
+            hp = held_parent(u, t, T, path)
+            sibs = [(p2, v2) for p2, v2 in leaf_assignments(hp[1], mode, path[:-1], rnd, per_leaf=1) if len(p2) == len(path)] if hp and hp[1]["k"] == "struct" else []
+            sibs = [(p2, v2) for p2, v2 in sibs if not A.has_nan(v2)]
+            if len(sibs) >= 2:
+                held, ptyp, pcls = hp
+                for nth, (p2, v2) in enumerate(rnd.sample(sibs, 2), 1):
+                    f, rf = ptyp["fields"][p2[-1] - 1], pcls.__fields__[p2[-1] - 1]
+                    ev = dict(base, id=rid, ev="Assign", path=p2, value=v2, held=nth)
+                    try:
+                        real = A.unpint(v2) if (f["bits"] and f["type"]["k"] != "enum") else A.unproject(v2, f["type"], rf.type)
+                        setattr(held, rf._name, real)
+                        status = {"status": "ok"}
+                    except Exception as e:  # noqa: BLE001
+                        status = {"status": "error", "exc": f"{type(e).__name__}: {e}"[:150]}
+                    members, d = observe_union(u, t, T)
+                    ev["obs"] = dict(status, members=members, dumps=d, pos=0)
+                    events.append(ev)
+                    rid += 1
+                break
     return events, rid
 
 
@@ -234,6 +267,9 @@ class UnionCheck:
                     rep.known_hit("F16", A.render(e["type"])[:160])
             elif "KF:F16" in v and failed == ["dumps"]:
                 rep.known_hit("F16", A.render(e["type"])[:160])
+            elif e.get("held") == 2 and set(failed) <= {"members", "dumps"}:
+                # assignment through a reference to a nested structure that was obtained before an earlier assignment (finding F49)
+                rep.known_hit("F49", f"{A.render(e['type'])[:120]} path={e['path']}")
             else:
                 rep.violation(f"union event {e['ev']} path={e.get('path')} value={e.get('value')}: clauses {v} :: {A.render(e['type'])[:300]} mode={e['mode']} obs={str(e['obs'])[:300]}",
                               {"kind": "union-event", "event": e, "clauses": v})
